@@ -1,9 +1,9 @@
 (* Property C06: leg fusion is a lossless, consistently ordered bijection.
-   Only statements; every proof is `exact <lemma of Proofs/LegP.v, Proofs/PipeP.v, Proofs/PipeP2.v>`.
+   Only statements; every proof is `exact <lemma of Proofs/LegP.v, Proofs/PipeP.v, Proofs/PipeP2.v, Proofs/PipeP3.v>`.
    Models: Model/ChargeL.v (make_valid), Model/Leg.v (LegCharge), Model/Pipe.v (LegPipe),
    Model/PipeMaps.v (take_flat, tiles, qmap_rows_of, qm_group/qm_blocks, combine_fn/split_fn). *)
 From TenpyV Require Import Base.Prelude Model.ChargeL Model.Leg Model.Pipe Model.PipeMaps
-  Proofs.LegP Proofs.PipeP Proofs.PipeP2.
+  Proofs.LegP Proofs.PipeP Proofs.PipeP2 Proofs.PipeP3.
 Open Scope Z_scope.
 
 (* map_incoming_flat is a bijection between the index tuples prod_l [0, ind_len_l) and [0, prod_l ind_len_l),
@@ -61,6 +61,23 @@ Theorem T06_qmap_slices : forall ci legs qconj srt bun I,
   qmap_rows_of p I = firstn (Z.to_nat (b - a)) (skipn (Z.to_nat a) (p_qmap p)) /\
   length (p_qmap_slices p) = S (length (p_blocks p)).
 Proof. exact qmap_slices_rows. Qed.
+
+(* the last layout clause of q_map ("rows sorted by I_s, and within equal I_s lexsorted by the incoming block tuple"):
+   for ANY number of legs, block counts, charges and sort/bunch settings, for rows i < j of q_map:
+   I_s(i) <= I_s(j), and if I_s(i) = I_s(j) then (i_1..i_n)(i) <lex (i_1..i_n)(j) strictly (lex_lt of Proofs/PipeP3.v:
+   first leg most significant).  Equivalently the block tuples of the rows of every outgoing block I, in q_map
+   order, are strictly lexsorted.  Route: the C-order grid np.indices(..).reshape(nlegs,-1).T is strictly lexsorted,
+   the stable sort by charge keeps the relative order of rows of equal charge, rows of one outgoing block have
+   equal charge.  With this, every clause of the documented q_map layout is proved (T06_qmap_shape, T06_qmap_tiling,
+   T06_qmap_slices, T06_qmap_rows_lexsorted). *)
+Theorem T06_qmap_rows_lexsorted : forall ci legs qconj srt bun,
+  let p := pipe_init ci legs qconj srt bun in
+  (forall i j, (i < j)%nat -> (j < length (p_qmap p))%nat ->
+     let qi := nth i (p_qmap p) (mkQ 0 0 O []) in
+     let qj := nth j (p_qmap p) (mkQ 0 0 O []) in
+     (q_Is qi <= q_Is qj)%nat /\ (q_Is qi = q_Is qj -> lex_lt (q_q qi) (q_q qj))) /\
+  (forall I, StronglySorted lex_lt (map q_q (qmap_rows_of p I))).
+Proof. exact qmap_rows_lexsorted. Qed.
 
 (* combine_legs / split_legs at the level of index maps.  A dense tensor is a function of its index:
    f : incoming index tuple -> entry, g : outgoing flat index -> entry;
@@ -157,6 +174,21 @@ Example T06_example_tiling :
   map (fun I => map qslice (qmap_rows_of p I)) (seq 0 4) = [[(0, 1); (1, 1)]; [(0, 2)]; [(0, 2); (2, 2)]; [(0, 4)]].
 Proof. vm_compute. repeat split. Qed.
 
+(* rows of equal I_s: the two-leg pipe above has outgoing blocks with two rows each; a Z_2 pipe of three legs
+   (2 x 3 x 2 blocks) has two outgoing blocks with six rows each, in lexicographic order of the block tuples, which
+   is NOT the grid order of q_map as a whole (the sort by charge interleaves the grid) *)
+Definition ex_legs3 : list leg :=
+  [mkLeg [(1, [0]); (1, [1])] 1; mkLeg [(1, [0]); (2, [1]); (1, [0])] 1; mkLeg [(1, [1]); (1, [0])] 1].
+Example T06_example_rows_lexsorted :
+  map (fun I => map q_q (qmap_rows_of (pipe_init [3; 1] ex_legs (-1) true true) I)) (seq 0 4) =
+    [[[0; 1]; [2; 1]]; [[1; 1]]; [[0; 0]; [2; 0]]; [[1; 0]]]%nat /\
+  map (fun r => (q_Is r, q_q r)) (p_qmap (pipe_init [2] ex_legs3 1 true true)) =
+    [(0, [0; 0; 1]); (0, [0; 1; 0]); (0, [0; 2; 1]); (0, [1; 0; 0]); (0, [1; 1; 1]); (0, [1; 2; 0]);
+     (1, [0; 0; 0]); (1, [0; 1; 1]); (1, [0; 2; 0]); (1, [1; 0; 1]); (1, [1; 1; 0]); (1, [1; 2; 1])]%nat /\
+  lex_lt [0; 2; 1]%nat [1; 0; 0]%nat /\ ~ lex_lt [1; 0; 0]%nat [0; 2; 1]%nat.
+Proof. split; [|split]; [vm_compute; reflexivity ..|]. split; [apply lex_ltb_spec; reflexivity|].
+  intros H. apply lex_ltb_spec in H. discriminate. Qed.
+
 (* combine / split of the dense 3 x 3 tensor f [i; j] = 10 i + j through that pipe *)
 Definition ex_f (t : list Z) : Z := 10 * nth 0 t 0 + nth 1 t 0.
 Example T06_example_split_combine :
@@ -181,6 +213,7 @@ Print Assumptions T06_fusion_rule.
 Print Assumptions T06_qmap_shape.
 Print Assumptions T06_qmap_tiling.
 Print Assumptions T06_qmap_slices.
+Print Assumptions T06_qmap_rows_lexsorted.
 Print Assumptions T06_split_combine.
 Print Assumptions T06_pipe_sorted.
 Print Assumptions T06_get_qindex.
